@@ -28,6 +28,7 @@ inductive E
   | toBytes (e : E)                      -- []byte(e)
   | toNum (e : E)                        -- json.Number(e)
   | unix (e : E)                         -- e.Unix()
+  | year (e : E)                         -- e.Year()
   | ne0 (e : E)                          -- e != 0, e != 0.0
   | fmtInt (e : E) (base : Nat)          -- strconv.FormatInt(e, base)
   | itoa (e : E)                         -- strconv.Itoa(e)
